@@ -300,6 +300,11 @@ func c1profile3() []*c1pkg {
 	add("op= and ++ evaluate the operands of their target once", "cnt = 0\nobjN = 0\nm := map[int]int{}\nm[next()] += 5\nm[next()]++\ns := []int{0, 0, 0, 0}\ns[next()] += 7\ns[next()-1]--\nobj().n += 4\nobj().n++\nobj().t += \"x\"\nfmt.Println(cnt, len(m), m[1], m[2], s, objN, objs[0].n, objs[1].n, objs[2].t)\n")
 	add("a store evaluates the operands of its target before the right-hand side", "cnt = 0\nobjN = 0\nm := map[int]int{}\nm[next()] = next()\ns := []int{0, 0, 0, 0, 0, 0}\ns[next()] = next()\nobj().n = next()\nfmt.Println(m[1], m[2], len(m), s, objs[0].n, cnt, objN)\n")
 	add("the receiver of a method call is evaluated before the arguments", "cnt = 0\nobjN = 0\nobjs[0].n, objs[1].n, objs[2].n = 1, 10, 100\nfmt.Println(obj().Diff(obj()), objN)\nobjN = 0\nfmt.Println(obj().Plus(objN).Plus(next()).Plus(next()*10).n, (&S{n: next()}).Plus(next()*10).n)\nobjs[0].n, objs[1].n, objs[2].n = 0, 0, 0\n")
+	add("op= with a call on the right stores into the element it read", "cnt = 0\ni := 0\nxs := []int{1, 2, 3}\nbump := func() int {\n\treturn 10\n}\nxs[i] += bump()\nxs[cnt] += next() * 100\nfmt.Println(xs[0]+xs[1]+xs[2], cnt)\nobjN = 0\nobjs[0].n, objs[1].n = 1, 100\nh := objs[0]\nh.n += obj().n + obj().n\nfmt.Println(objs[0].n)\nobjs[0].n, objs[1].n = 0, 0\n")
+	add("typed const groups repeat the type", "type Color uint8\nconst (\n\tRed Color = iota\n\tGreen\n\tBlue\n)\nconst (\n\tF0 float64 = iota\n\tF1\n\tN = 7\n\tM\n)\nconst (\n\tX uint8 = iota + 250\n\tY\n\tZ\n)\nc := Blue\nc += 254\ng := Green\nf := F1\ny := Y\ny += 10\nz := Z\nz += 5\nfmt.Println(c, g-2, f/2, M/2, y, z, Red, X)\n")
+	add("values of different kinds in any-typed variables are unequal", "same := func(a, b any) bool {\n\treturn a == b\n}\nisNil := func(x any) bool {\n\treturn x == nil\n}\nfmt.Println(isNil(\"s\"), same(\"a\", nil), same(nil, \"a\"), same(\"a\", 1), same(\"\", false), same(0, \"\"), same(false, \"\"), same(0, false), same(\"a\", \"a\"), same(2, 2), same(true, true), isNil(nil), same(nil, 0), same(1.5, \"1.5\"))\nm := map[string]any{\"k\": \"v\", \"n\": 1}\nfmt.Println(m[\"k\"] == nil, m[\"z\"] == nil, m[\"k\"] != nil, m[\"k\"] == \"v\", m[\"n\"] == \"v\", m[\"n\"] == 1)\nfor _, x := range []any{\"a\", 1, nil, false} {\n\tfmt.Println(x == nil, x == \"a\", x == 1, x == false)\n}\n")
+	add("rune slices and strings", "rs := []rune{'a', 'é', 0x4e16}\nfmt.Println(string(rs), len(string(rs)))\nvar r2 []rune\nfor _, r := range \"世界\" {\n\tr2 = append(r2, r)\n}\nfmt.Println(string(r2) == \"世界\", []byte(string(r2)), len(r2))\nq := []rune(\"héllo\")\nq[0] = 'J'\nfmt.Println(len(q), q, string(q[1:3]), string(q), len([]rune(\"\")), string([]rune{}) == \"\")\nbs := []byte(\"hé\")\nfmt.Println(len(bs), bs, string(bs), string(bs[:1]))\n")
+	add("conversions of nil to slice types keep the element type", "k := append([]float64(nil), 1)\nb := append([]byte(nil), 200)\nb[0] += 100\nj := []float64(nil)\nj = append(j, 1, 2)\nj[1] = 3\nvar d []float64 = []float64(nil)\nd = append(d, 1)\nmm := map[string][]float64{\"a\": []float64(nil)}\nmm[\"a\"] = append(mm[\"a\"], 1)\ng := [][]float64{[]float64(nil), {1}}\ng[0] = append(g[0], 2)\nfmt.Println(k[0]/2, b[0], b, j[0]/2, j[1]/2, d[0]/2, mm[\"a\"][0]/2, g, g[0][0]/4, []int(nil) == nil, len([]string(nil)), append([]string(nil), \"a\"))\n")
 	add("named untyped constants take the type of their context", "const N = 10\nconst (\n\tRed = iota\n\tGreen\n\tBlue\n)\nvar f float64 = N\ng := 1.5\ng = N\nvar b byte = N\nvar c uint8 = Blue\ncs := []float64{Red, Green, Blue}\nx := N\nvar u uint32 = N\nfmt.Println(f/4, g/4, b+250, c-3, cs[1]/2, x/4, N/4, u-11)\n")
 	add("tuple assignment: operands first, then stores left to right", "s := []int{1, 2, 3}\nt := s[:1]\ns[0], t[0] = 7, 8\ni := 0\ns[i], i = 5, 1\ns[i], s[i+1] = s[i+1], s[i]\na := &S{}\nb := a\na.n, b.n = 1, 2\nm := map[string]int{}\nu := 0\nm[\"k\"], u, _ = 1, 2, 3\nq := []int{1, 2}\nq[0], q[1] = q[1], q[0]\nfmt.Println(s, t, i, a.n, m[\"k\"], u, q)\n")
 	add("range reads the live array", "s := []int{1, 2, 3, 4}\nt := s[1:]\nsum := 0\nfor i, v := range s {\n\tif i == 0 {\n\t\ts[2] = 30\n\t\tt[2] = 40\n\t}\n\tsum += v\n}\nsieve := make([]bool, 12)\nprimes := 0\nfor i, c := range sieve {\n\tif i < 2 || c {\n\t\tcontinue\n\t}\n\tprimes++\n\tfor j := i * 2; j < len(sieve); j += i {\n\t\tsieve[j] = true\n\t}\n}\nfmt.Println(sum, primes)\n")
@@ -408,6 +413,8 @@ func c1profile6() []*c1pkg {
 		mk("import (\n\t\"fmt\"\n\t"+alias+"\"ROOT/util\"\n)\n\nfunc Main() {\n\tb := "+ref+".New(4)\n\tc := &"+ref+".Box{V: 5}\n\tfmt.Println("+ref+".Limit, "+ref+".Count, b.Double(), c.Double(), "+ref+".Add(1, 2), b.V)\n\t"+ref+".Count += 10\n\tfmt.Println("+ref+".Count)\n}\n",
 			map[string]string{"util/util.go": util}, "exported const/var/func/type/method, alias="+alias)
 	}
+	mk("import (\n\t\"fmt\"\n\t\"ROOT/temp\"\n)\n\nfunc Main() {\n\tvar i int32 = 7\n\tc := temp.Celsius(i)\n\ts := temp.Small(i + 250)\n\tx := temp.IDs([]int{1})\n\tx = append(x, 2)\n\tb := temp.Blue\n\tb += 254\n\tg := temp.Green\n\tfmt.Println(c/2, s, x, b, g-2, temp.Half/2)\n}\n",
+		map[string]string{"temp/temp.go": "package temp\n\ntype Celsius float64\ntype Small uint8\ntype IDs []int\n\nconst (\n\tRed Small = iota\n\tGreen\n\tBlue\n)\n\nconst (\n\tZero float64 = iota\n\tHalf\n)\n"}, "named types and typed const groups of an imported package")
 	// package split over 1-3 files
 	mk("import (\n\t\"fmt\"\n\t\"ROOT/util\"\n)\n\nfunc Main() {\n\tfmt.Println(util.A(), util.B(), util.C, util.D)\n}\n",
 		map[string]string{"util/a.go": "package util\n\nfunc A() int {\n\treturn B() + 1\n}\n", "util/b.go": "package util\n\nfunc B() int {\n\treturn C * 2\n}\n", "util/c.go": "package util\n\nconst C = 21\n\nvar D = A() + 1\n"}, "package split over three files")
